@@ -1279,7 +1279,10 @@ class ExecutionTracer(AbstractExecutionTracer):  # noqa: PLR0904
         exc_value: BaseException | None,
         traceback: TracebackType | None,
     ) -> None:
-        self.stop()
+        # A thread that was abandoned after a timeout unwinds through here later on; it
+        # must not stop the tracer for the thread that owns it by then.
+        if threading.current_thread().ident == self._current_thread_identifier:
+            self.stop()
 
     def check(self) -> None:  # noqa: D102
         if threading.current_thread().ident != self._current_thread_identifier:
